@@ -1,6 +1,7 @@
 """C11 — Requirement edits keep the requirement graph consistent."""
 import json
 import os
+import re
 from lib.vlib import *
 from checks import C10 as base
 
@@ -11,7 +12,10 @@ META = {
     "level_text": "Theorems (Coq, unbounded, all closed under the global context) about the model of get.go/query.go/"
                   "reqs.go and the library: tidy_preserves_build_list; tidy_versions_sound (Algorithm R regenerates the "
                   "build list); upgrade_contains_and_no_lower + upgrade_resolves (get add/no-op/upgrade for whatever "
-                  "version the query resolved to: >= resolved, nothing lowered); upgrade_all_no_lower (+ every project "
+                  "version the query resolved to: >= resolved, nothing lowered); patch_upgrade_not_below_selection + "
+                  "patch_upgrade_lowers_nothing (a patch or upgrade query never resolves below the selected version, be "
+                  "it a tag or the pseudo-version of an untagged commit, so get never downgrades for them); "
+                  "upgrade_all_no_lower (+ every project "
                   "reaches Reqs.Upgrade's version); names_preserved_new_names_unique; tidy_idempotent; get_idempotent "
                   "under the reported hypothesis 'the build list has the resolved version' with "
                   "get_idempotent_refuted (F16 witness, vm_compute) and resolve_query_bl_independent; "
@@ -19,7 +23,9 @@ META = {
                   "downgrade_terminates_partial cover the three BuildList phases of mvs.Downgrade; the missing lemma "
                   "is down_list_spec (the add/exclude/previous phase only reaches in-bound nodes and does not exhaust "
                   "its fuel); upgrade-all idempotence is not proved. The model is tied to the code by running Get "
-                  "(every query class), Tidy and UpgradeAll in sequences of 1-4 operations on generated universes; every "
+                  "(every query class), Tidy and UpgradeAll in sequences of 1-4 operations on generated universes, including "
+                  "universes and roots that require untagged commits (selections that are no tag) with queries aimed at "
+                  "those selections, and with patch/upgrade resolution compared with an independent reference; every "
                   "resulting configuration is recomputed by the model (including every downgrade, with a watchdog) and the "
                   "statement's inequalities are checked directly against an independent build-list reference.",
     "level_note": "Trusted: Coq kernel; python rendering of versions into semver records and the syntactic "
@@ -34,6 +40,7 @@ META = {
 }
 
 HDR = base.HDR
+PSEUDO = re.compile(r"[-.]\d{14}-[0-9A-Za-z]+$")   # module.IsPseudoVersion
 
 
 def cq_range_version(s):
@@ -128,6 +135,7 @@ def run(ctx):
     cases = [r for r in recs if r["t"] == "C11"]
     oracles = [r for r in recs if r["t"] == "ORACLE"]
     dist = {}
+    dist_untagged = {}   # get on a project that is selected at a pseudo-version (no tag), by query class
     for c in cases:
         k = c["op"]["op"]
         if k == "get":
@@ -135,16 +143,26 @@ def run(ctx):
             k += ":" + ("QRef" if t.startswith("(QRef") else t.split("(")[2].split(" ")[0] if t.startswith("(QRange") else t)
         k += ":" + c["res"]["st"]
         dist[k] = dist.get(k, 0) + 1
+        if PSEUDO.search(c.get("sel", "")):
+            dist_untagged[k] = dist_untagged.get(k, 0) + 1
     ctx.coverage["evaluations"] = len(cases)
     ctx.coverage["distinct_nontrivial"] = len({json.dumps([c["u"], c["cfg"], c["op"]]) for c in cases
                                                if c["res"]["st"] == "ok" and c["res"]["cfg"] != c["cfg"]})
     ctx.coverage["rule"] = ("%d generated universes (as C10) x 3 root requirement sets x sequences of 1-4 operations drawn "
                             "from get (no query, latest, upgrade, patch, exact version, vX.Y prefix, >, >=, <, <=, branch "
                             "ref, unknown ref, malformed range, unknown project, explicit @v1, untagged major), tidy, "
-                            "upgrade-all; every application is repeated once on its own result; non-trivial = the "
-                            "operation succeeded and changed the configuration" % nuniv)
+                            "upgrade-all; every fourth universe has projects that require untagged commits (pseudo-"
+                            "versions) of other projects, and one more sequence per universe starts from a root that "
+                            "requires untagged commits and aims patch/upgrade/latest/version/range/ref queries at the "
+                            "projects selected at one; a ref query that selects an untagged commit is followed by such a "
+                            "query on the same project; every application is repeated once on its own result; "
+                            "non-trivial = the operation succeeded and changed the configuration" % nuniv)
     ctx.coverage["exhaustive"] = False
     ctx.coverage["correspondence"]["distribution"] = dist
+    ctx.coverage["correspondence"]["distribution_selected_untagged"] = dist_untagged
+    ctx.coverage["correspondence"]["untagged_family_cases"] = len([c for c in cases if c.get("fam") == "untagged"])
+    ctx.coverage["correspondence"]["universes_requiring_untagged_commits"] = len(
+        [u for u in unis.values() if any(PSEUDO.search(r[1]) for s in u["sums"] for r in s[3])])
     ctx.add_samples([{"cfg": c["cfg"], "op": c["op"], "result": c["res"]} for c in cases
                      if c["res"]["st"] == "ok" and c["res"]["cfg"] != c["cfg"]][:4])
 
